@@ -33,7 +33,8 @@ QUOTED = ['"hello world"', '"a, b"', '"50% off"', '"see #1"', '"x // y"', '"Mr. 
 # brackets between quotes: the reader counts them (a finding, outside the domain of the theorem)
 QUOTED_BRACKET = ['"f(x"', '"a) b"', '"[1"']
 VARS = ["$X", "$Y", "$Z", "$In", "$Out", "$H", "$T", "$_"]
-FLOATS = ["1.5", "0.25", "12.75", "3.0", "100.125", "7.5"]
+FLOATS = ["1.5", "0.25", "12.75", "3.0", "100.125", "7.5", "1.95", "9.5", "19.9", "0.9", "9.0"] + \
+         ["%d.%d" % (d, e) for d in range(10) for e in range(10)]   # every digit on either side of the point
 INTS = ["0", "1", "5", "27", "100"]
 
 def gen_term(rng, depth=0):
